@@ -2,6 +2,7 @@ import Robust.Irc.Inv
 import Robust.Irc.Proofs.Entry
 import Robust.Irc.Proofs.ChanLimitEntry
 import Robust.Irc.Proofs.ChanLimitSessEntry
+import Robust.Irc.Proofs.PrivHistB
 /-!
 # C14 — IRC state stays consistent
 
@@ -470,4 +471,389 @@ theorem C14_limits_sessions_history {es : List Entry} {st : St} (hw : WfHistory 
   run_sessions_within_limit (SessWf.of_core GInv_init.inv.toWInvCore) (Or.inl rfl) hw
     ((SessLimitHistory_iff _ _).1 hl) hr
 
+/-! ## non-vacuity
+
+Every theorem above that has hypotheses is instantiated on concrete data on which all its hypotheses hold together.
+
+* `Ex.stR` is the state reached from the initial state by the history `Ex.es0` (`Ex.run0`, by evaluation): a Config
+  entry (`MaxChannels = 2`, `MaxSessions = 6`), a services link (session 2) with the pseudo-client `ChanServ`, the
+  registered clients alice (chanop of `#c` and `#d`) and bob, `ChanServ` on `#c` as well, and a connection (16) that
+  has not chosen a nickname — 5 sessions, and 2 channels: the channel limit is reached.  `GInv stR` by
+  `run_preserves` (`Ex.ginvR`).
+* `Ex.stC` is `stR` after a Config entry that raises the channel limit to 3 (`GInv` by `C14_step`).
+* `Ex.histB` decides `WfHistory`, `LimitHistory` and `SessLimitHistory` in one pass (the lines of services links
+  included); the history theorems are instantiated on `es0 ++ es2` (26 entries).
+
+The examples written `example := C14_… args` have the instantiated conclusion of the theorem as their type. -/
+namespace Ex
+local instance (cmd : String) (n : Nat) : Decidable (ParamsOK cmd n) := by unfold ParamsOK; exact inferInstance
+
+/-- `Conforming` as a Boolean, the lines of services links included -/
+def confB (st : St) (e : Entry) : Bool :=
+  !(e.type == 2) || (match AMap.get st.sessions e.session with
+    | some s => !s.server || (match parseMessage e.data with
+        | some m => m.pfx.isSome && decide (ParamsOK (toUpper m.command) m.params.length)
+        | none => true)
+    | none => true)
+
+theorem conf_of_B {st : St} {e : Entry} (h : confB st e = true) : Conforming st e := by
+  intro ht s m hs hsv hm
+  unfold confB at h
+  simpa [ht, hs, hsv, hm] using h
+
+/-- the side condition of `LimitHistory` / `SessLimitHistory` on one entry, as Booleans -/
+def limOkB (st : St) (e : Entry) : Bool :=
+  !(e.type == 6) || (match e.cfg with
+    | some cfg => cfg.maxChannels == 0 || decide (st.channels.length ≤ cfg.maxChannels)
+    | none => true)
+def slimOkB (st : St) (e : Entry) : Bool :=
+  !(e.type == 6) || (match e.cfg with
+    | some cfg => cfg.maxSessions == 0 || decide (st.sessions.length ≤ cfg.maxSessions)
+    | none => true)
+
+/-- `WfHistory`, `LimitHistory` and `SessLimitHistory` in one pass, as a Boolean -/
+def histB (st : St) : List Entry → Bool
+  | [] => true
+  | e :: es => entryOkB st e && confB st e && limOkB st e && slimOkB st e && (match applyEntry st e with
+    | .ok (st', _) => histB st' es
+    | _ => true)
+
+theorem wf_of_B : ∀ {es : List Entry} {st : St}, histB st es = true → WfHistory st es
+  | [], _, _ => trivial
+  | e :: es, st, h => by
+    unfold histB at h
+    simp only [Bool.and_eq_true] at h
+    refine ⟨entryOk_of_B h.1.1.1.1, conf_of_B h.1.1.1.2, fun st' out hap => ?_⟩
+    have h2 := h.2
+    rw [hap] at h2
+    exact wf_of_B h2
+
+theorem lim_of_B : ∀ {es : List Entry} {st : St}, histB st es = true → LimitHistory st es
+  | [], _, _ => trivial
+  | e :: es, st, h => by
+    unfold histB at h
+    simp only [Bool.and_eq_true] at h
+    refine ⟨fun ht cfg hc => ?_, fun st' out hap => ?_⟩
+    · have h1 := h.1.1.2
+      unfold limOkB at h1
+      simpa [ht, hc] using h1
+    · have h2 := h.2
+      rw [hap] at h2
+      exact lim_of_B h2
+
+theorem slim_of_B : ∀ {es : List Entry} {st : St}, histB st es = true → SessLimitHistory st es
+  | [], _, _ => trivial
+  | e :: es, st, h => by
+    unfold histB at h
+    simp only [Bool.and_eq_true] at h
+    refine ⟨fun ht cfg hc => ?_, fun st' out hap => ?_⟩
+    · have h1 := h.1.2
+      unfold slimOkB at h1
+      simpa [ht, hc] using h1
+    · have h2 := h.2
+      rw [hap] at h2
+      exact slim_of_B h2
+
+theorem wf_append : ∀ {es : List Entry} {st st' : St} {es' : List Entry}, WfHistory st es → runEntries st es = .ok st' →
+    WfHistory st' es' → WfHistory st (es ++ es')
+  | [], _, _, _, _, hr, h' => by cases hr; exact h'
+  | e :: es, st, st', es', h, hr, h' => by
+    refine ⟨h.1, h.2.1, fun st1 out hap => ?_⟩
+    unfold runEntries at hr
+    rw [hap] at hr
+    exact wf_append (h.2.2 st1 out hap) hr h'
+theorem lim_append : ∀ {es : List Entry} {st st' : St} {es' : List Entry}, LimitHistory st es → runEntries st es = .ok st' →
+    LimitHistory st' es' → LimitHistory st (es ++ es')
+  | [], _, _, _, _, hr, h' => by cases hr; exact h'
+  | e :: es, st, st', es', h, hr, h' => by
+    refine ⟨h.1, fun st1 out hap => ?_⟩
+    unfold runEntries at hr
+    rw [hap] at hr
+    exact lim_append (h.2 st1 out hap) hr h'
+theorem slim_append : ∀ {es : List Entry} {st st' : St} {es' : List Entry}, SessLimitHistory st es →
+    runEntries st es = .ok st' → SessLimitHistory st' es' → SessLimitHistory st (es ++ es')
+  | [], _, _, _, _, hr, h' => by cases hr; exact h'
+  | e :: es, st, st', es', h, hr, h' => by
+    refine ⟨h.1, fun st1 out hap => ?_⟩
+    unfold runEntries at hr
+    rw [hap] at hr
+    exact slim_append (h.2 st1 out hap) hr h'
+theorem run_append : ∀ {es : List Entry} {st st' st'' : St} {es' : List Entry}, runEntries st es = .ok st' →
+    runEntries st' es' = .ok st'' → runEntries st (es ++ es') = .ok st''
+  | [], _, _, _, _, hr, h' => by cases hr; exact h'
+  | e :: es, st, st', st'', es', hr, h' => by
+    unfold runEntries at hr
+    show runEntries st (e :: (es ++ es')) = _
+    unfold runEntries
+    split at hr
+    · rename_i st1 out hap
+      exact run_append hr h'
+    · cases hr
+    · cases hr
+
+/-- the parts of a result that returns -/
+def entryOk (r : Res (St × List Out)) : Bool :=
+  match r with
+  | .ok _ => true
+  | _ => false
+def entrySt (r : Res (St × List Out)) : St :=
+  match r with
+  | .ok p => p.1
+  | _ => {}
+def entryOut (r : Res (St × List Out)) : List Out :=
+  match r with
+  | .ok p => p.2
+  | _ => []
+theorem eq_of_entryOk {r : Res (St × List Out)} (h : entryOk r = true) : r = .ok (entrySt r, entryOut r) := by
+  cases r with
+  | ok p => rfl
+  | panic x => cases h
+  | declined x => cases h
+def ctxOk (r : Res Ctx) : Bool :=
+  match r with
+  | .ok _ => true
+  | _ => false
+def ctxOf (r : Res Ctx) : Ctx :=
+  match r with
+  | .ok c => c
+  | _ => ⟨{}, 0, 0, []⟩
+theorem eq_of_ctxOk {r : Res Ctx} (h : ctxOk r = true) : r = .ok (ctxOf r) := by
+  cases r with
+  | ok p => rfl
+  | panic x => cases h
+  | declined x => cases h
+/-- number of channels, number of sessions and number of outputs of a handler that returns -/
+def counts (r : Res Ctx) : Option (Nat × Nat × Nat) :=
+  match r with
+  | .ok c => some (c.st.channels.length, c.st.sessions.length, c.out.length)
+  | _ => none
+/-- the text of the last output of a handler that returns -/
+def lastText (r : Res Ctx) : Option String :=
+  match r with
+  | .ok c => c.out.getLast?.map fun o => String.ofList (o.data.map fun b => Char.ofNat b.toNat)
+  | _ => none
+def mk (ty id : Nat) (sess : Id) (data : String) : Entry :=
+  { type := ty, id := id, session := sess, data := data, unixNano := 0, cmid := id, rev := 0, remoteAddr := "", cfg := none }
+def cfg : Config := { services := ["sekrit"], maxChannels := 2, maxSessions := 6 }
+def eCfg : Entry :=
+  { type := 6, id := 1, session := ⟨0, 0⟩, data := "", unixNano := 0, cmid := 0, rev := 1, remoteAddr := "", cfg := some cfg }
+/-- the configuration; a services link connects and introduces `ChanServ`; alice registers and creates `#c`; bob
+registers and joins; `ChanServ` joins; alice creates `#d`; a further connection is opened -/
+def es0 : List Entry := [
+  eCfg,
+  mk 0 2 ⟨0, 0⟩ "auth-s", mk 2 3 ⟨2, 0⟩ "PASS services=sekrit", mk 2 4 ⟨2, 0⟩ "SERVER services.x 1",
+  mk 2 5 ⟨2, 0⟩ ":services.x NICK ChanServ 1 1 services localhost services.x 0 :Channel Services",
+  mk 0 6 ⟨0, 0⟩ "auth-a", mk 2 7 ⟨6, 0⟩ "NICK alice", mk 2 8 ⟨6, 0⟩ "USER a 0 * :Alice", mk 2 9 ⟨6, 0⟩ "JOIN #c",
+  mk 0 10 ⟨0, 0⟩ "auth-b", mk 2 11 ⟨10, 0⟩ "NICK bob", mk 2 12 ⟨10, 0⟩ "USER b 0 * :Bob", mk 2 13 ⟨10, 0⟩ "JOIN #c",
+  mk 2 14 ⟨2, 0⟩ ":ChanServ JOIN #c", mk 2 15 ⟨6, 0⟩ "JOIN #d",
+  mk 0 16 ⟨0, 0⟩ "auth-d"]
+/-- the pseudo-client's id: the link's id and the FNV hash of the nick -/
+def csId : Id := ⟨2, 893999252474884769⟩
+def linkS : Session := { id := ⟨2, 0⟩, auth := "auth-s", lastActivity := 14, lastNonPing := 14, created := 2, svid := "0", pass := "services=sekrit", server := true, lastClientMessageId := 14, ircPrefix := ⟨"services.x", "", ""⟩ }
+def chanServS : Session := { id := csId, nick := "ChanServ", username := "services", realname := "Channel Services", channels := ["#c"], lastActivity := 5, lastNonPing := 5, created := 5, svid := "0", ircPrefix := ⟨"ChanServ", "services", "robust/0x2"⟩ }
+def aliceS : Session := { id := ⟨6, 0⟩, auth := "auth-a", loggedIn := true, nick := "alice", username := "a", realname := "Alice", channels := ["#c", "#d"], lastActivity := 15, lastNonPing := 15, created := 6, svid := "0", lastClientMessageId := 15, ircPrefix := ⟨"alice", "a", "robust/0x6"⟩ }
+def bobS : Session := { id := ⟨10, 0⟩, auth := "auth-b", loggedIn := true, nick := "bob", username := "b", realname := "Bob", channels := ["#c"], lastActivity := 13, lastNonPing := 13, created := 10, svid := "0", lastClientMessageId := 13, ircPrefix := ⟨"bob", "b", "robust/0xa"⟩ }
+def daveS : Session := { id := ⟨16, 0⟩, auth := "auth-d", lastActivity := 16, lastNonPing := 16, created := 16, svid := "0" }
+/-- the state reached from the initial state by `es0` (`run0` below) -/
+def stR : St :=
+  { sessions := [(⟨2, 0⟩, linkS), (csId, chanServS), (⟨6, 0⟩, aliceS), (⟨10, 0⟩, bobS), (⟨16, 0⟩, daveS)]
+    nicks := [("chanserv", csId), ("alice", ⟨6, 0⟩), ("bob", ⟨10, 0⟩)]
+    channels := [("#c", { name := "#c", nicks := [("alice", { chanop := true }), ("bob", {}), ("chanserv", {})], modes := ['n', 't'] }),
+                 ("#d", { name := "#d", nicks := [("alice", { chanop := true })], modes := ['n', 't'] })]
+    serverSessions := [2]
+    lastProcessed := ⟨6, 0⟩
+    config := { cfg with revision := 1 } }
+theorem run0 : runOk {} es0 = some stR := by decide +kernel
+theorem hist0 : histB {} es0 = true := by decide +kernel
+/-- `stR` is reachable, hence satisfies the full invariant -/
+theorem ginvR : GInv stR := run_preserves GInv_init (wf_of_B hist0) (runOk_some run0)
+
+def cR : Ctx := { st := stR, msgid := 20 }
+/-- a Config entry that raises the channel limit to 3 and keeps the session limit -/
+def cfg3 : Config := { cfg with maxChannels := 3 }
+def eCfg3 : Entry :=
+  { type := 6, id := 20, session := ⟨0, 0⟩, data := "", unixNano := 0, cmid := 0, rev := 2, remoteAddr := "", cfg := some cfg3 }
+/-- `stR` after `eCfg3`: two channels, limit 3 -/
+def stC : St := { stR with config := { cfg3 with revision := 2 } }
+def cC : Ctx := { st := stC, msgid := 21 }
+theorem applyC : applyEntry stR eCfg3 = .ok (stC, []) := rfl
+/-- bob creates `#new` -/
+def eJoin : Entry := mk 2 21 ⟨10, 0⟩ "JOIN #new"
+def mJoin2 : IrcMsg := ⟨none, "JOIN", ["#x,#y"]⟩
+def mSJoin : IrcMsg := ⟨some ⟨"ChanServ", "", ""⟩, "JOIN", ["#new"]⟩
+def mSvsjoin : IrcMsg := ⟨some ⟨"services.x", "", ""⟩, "SVSJOIN", ["bob", "#new"]⟩
+def mSNick : IrcMsg := ⟨some ⟨"services.x", "", ""⟩, "NICK", ["NickServ", "1", "1", "services", "localhost", "services.x", "0", "Nick Services"]⟩
+def eSNick : Entry := mk 2 21 ⟨2, 0⟩ ":services.x NICK NickServ 1 1 services localhost services.x 0 :Nick Services"
+def eCreate : Entry := mk 0 21 ⟨0, 0⟩ "auth-e"
+def eCreate2 : Entry := mk 0 22 ⟨0, 0⟩ "auth-f"
+/-- the limits are set to the current numbers (3 channels, 6 sessions): the boundary case allowed by `LimitHistory` -/
+def cfgT : Config := { cfg with maxChannels := 3, maxSessions := 6 }
+def eCfgT : Entry :=
+  { type := 6, id := 29, session := ⟨0, 0⟩, data := "", unixNano := 0, cmid := 0, rev := 3, remoteAddr := "", cfg := some cfgT }
+/-- the limit is raised to 3; bob creates `#new` (3 channels); a fourth channel is refused to bob, to the services
+`SVSJOIN` and to the services `JOIN`; a sixth session is created, a seventh is refused, and so is the pseudo-client
+`NickServ`; the limits are set to the current numbers; bob still cannot create `#more` -/
+def es2 : List Entry := [
+  eCfg3, eJoin, mk 2 22 ⟨10, 0⟩ "JOIN #more", mk 2 23 ⟨2, 0⟩ ":services.x SVSJOIN bob #more", mk 2 24 ⟨2, 0⟩ ":ChanServ JOIN #more",
+  mk 0 25 ⟨0, 0⟩ "auth-e", mk 0 26 ⟨0, 0⟩ "auth-f",
+  mk 2 27 ⟨2, 0⟩ ":services.x NICK NickServ 1 1 services localhost services.x 0 :Nick Services",
+  eCfgT, mk 2 30 ⟨10, 0⟩ "JOIN #more"]
+def stEnd : St := (runOk stR es2).getD {}
+theorem runOk_of_isSome {st : St} {es : List Entry} (h : (runOk st es).isSome = true) :
+    runOk st es = some ((runOk st es).getD {}) := by
+  cases h' : runOk st es with
+  | none => rw [h'] at h; cases h
+  | some x => rfl
+theorem run2 : runOk stR es2 = some stEnd := runOk_of_isSome (by decide +kernel)
+theorem hist2 : histB stR es2 = true := by decide +kernel
+theorem run02 : runEntries {} (es0 ++ es2) = .ok stEnd := run_append (runOk_some run0) (runOk_some run2)
+theorem wf02 : WfHistory {} (es0 ++ es2) := wf_append (wf_of_B hist0) (runOk_some run0) (wf_of_B hist2)
+theorem lim02 : LimitHistory {} (es0 ++ es2) := lim_append (lim_of_B hist0) (runOk_some run0) (lim_of_B hist2)
+theorem slim02 : SessLimitHistory {} (es0 ++ es2) := slim_append (slim_of_B hist0) (runOk_some run0) (slim_of_B hist2)
+theorem ginvC : GInv stC := C14_step stR stC eCfg3 [] ginvR (entryOk_of_B (by decide +kernel)) applyC
+theorem getAlice : AMap.get stR.sessions ⟨6, 0⟩ = some aliceS := by decide +kernel
+theorem getBob : AMap.get stR.sessions ⟨10, 0⟩ = some bobS := by decide +kernel
+theorem getDave : AMap.get stR.sessions ⟨16, 0⟩ = some daveS := by decide +kernel
+def chanC : Channel := { name := "#c", nicks := [("alice", { chanop := true }), ("bob", {}), ("chanserv", {})], modes := ['n', 't'] }
+theorem getC : AMap.get stR.channels "#c" = some chanC := by decide +kernel
+attribute [irreducible] stEnd
+end Ex
+open Ex
+
+/-- `C14_reachable` on `es0` (16 entries) and on `es0 ++ es2` (26 entries) -/
+example : GInv stR := C14_reachable (wf_of_B hist0) (runOk_some run0)
+example : GInv stEnd := C14_reachable wf02 run02
+/-- `C14_step` on a Config entry, and on bob's `JOIN #new`, which applies and creates the channel -/
+example : GInv stC := C14_step stR stC eCfg3 [] ginvR (entryOk_of_B (by decide +kernel)) applyC
+example : GInv (entrySt (applyEntry stC eJoin)) :=
+  C14_step stC _ eJoin _ ginvC (entryOk_of_B (by decide +kernel)) (eq_of_entryOk (by decide +kernel))
+example : (AMap.keys (entrySt (applyEntry stC eJoin)).channels) = ["#c", "#d", "#new"] := by decide +kernel
+
+/-- `C14_nick_unique`: its hypotheses can only hold for `a = b` (that is the statement); on alice's stored session
+they do, and on alice and bob the theorem shows that the folded nicks differ -/
+example : (⟨6, 0⟩ : Id) = ⟨6, 0⟩ := C14_nick_unique ginvR getAlice getAlice (by decide) rfl
+example : nickToLower aliceS.nick ≠ nickToLower bobS.nick :=
+  fun he => absurd (C14_nick_unique ginvR getAlice getBob (by decide) he) (by decide)
+/-- `C14_sessions_live`, `C14_indexed` on alice -/
+example : aliceS.deleted = false ∧ aliceS.id = ⟨6, 0⟩ := C14_sessions_live ginvR getAlice
+example : AMap.get stR.nicks (nickToLower aliceS.nick) = some ⟨6, 0⟩ := C14_indexed ginvR getAlice (by decide)
+/-- `C14_membership_symmetric`: alice and `#d` (both sides hold), bob and `#d` (both sides fail) -/
+example : "#d" ∈ aliceS.channels ↔ ∃ c, AMap.get stR.channels "#d" = some c ∧ nickToLower aliceS.nick ∈ AMap.keys c.nicks :=
+  C14_membership_symmetric ginvR getAlice (by decide) "#d"
+example : "#d" ∈ aliceS.channels ∧ "#d" ∉ bobS.channels := by decide
+example : ¬ ∃ c, AMap.get stR.channels "#d" = some c ∧ nickToLower bobS.nick ∈ AMap.keys c.nicks :=
+  fun h => absurd ((C14_membership_symmetric ginvR getBob (by decide) "#d").2 h) (by decide)
+/-- `C14_nickless_inert` on the connection without nickname that `stR` contains -/
+example : daveS.channels = [] ∧ ∀ x, AMap.get stR.nicks x ≠ some ⟨16, 0⟩ :=
+  (C14_nickless_inert ginvR).2 ⟨16, 0⟩ daveS getDave rfl
+/-- `C14_names_valid`, `C14_logged_in_has_nick`, `C14_no_empty_channel`, `C14_channel_key` on alice and `#c` -/
+example : isValidNickname aliceS.nick = true ∧ isValidChannel chanC.name = true :=
+  ⟨(C14_names_valid ginvR).1 ⟨6, 0⟩ aliceS getAlice (by decide), (C14_names_valid ginvR).2 "#c" chanC getC⟩
+example : aliceS.nick ≠ "" := C14_logged_in_has_nick ginvR getAlice rfl
+example : chanC.nicks ≠ [] := C14_no_empty_channel ginvR getC
+example : chanToLower chanC.name = "#c" := C14_channel_key ginvR getC
+/-- `C14_members_are_live_and_reachable`, `C14_index_sound` on the pseudo-client `ChanServ`, a member of `#c` -/
+example : ∃ id s, AMap.get stR.nicks "chanserv" = some id ∧ AMap.get stR.sessions id = some s ∧ s.deleted = false ∧
+    nickToLower s.nick = "chanserv" ∧ "#c" ∈ s.channels :=
+  C14_members_are_live_and_reachable ginvR getC (by decide)
+example : ∃ s, AMap.get stR.sessions csId = some s ∧ s.deleted = false ∧ nickToLower s.nick = "chanserv" :=
+  C14_index_sound ginvR (n := "chanserv") (by decide +kernel)
+/-- `C14_nodup`, `C14_invB` (and the executable predicate evaluated directly) -/
+example : (AMap.keys stR.sessions).Nodup ∧ (AMap.keys stR.nicks).Nodup ∧ (AMap.keys stR.channels).Nodup := C14_nodup ginvR
+example : invB stR = true := C14_invB ginvR
+example : invB stR = true := by decide +kernel
+
+/-- `C14_join_creates_only_below_limit`: below the limit (2 channels, limit 3) bob's `JOIN #new` creates the channel … -/
+example := C14_join_creates_only_below_limit (c := cC) (sid := ⟨10, 0⟩) (chn := "#new") (key := "")
+  (eq_of_ctxOk (by decide +kernel))
+example : counts (joinOne cC ⟨10, 0⟩ "#new" "") = some (3, 5, 7) := by decide +kernel
+/-- … at the limit (2 channels, limit 2) it returns as well, and is refused -/
+example := C14_join_creates_only_below_limit (c := cR) (sid := ⟨10, 0⟩) (chn := "#new") (key := "")
+  (eq_of_ctxOk (by decide +kernel))
+example : counts (joinOne cR ⟨10, 0⟩ "#new" "") = some (2, 5, 1) ∧
+    lastText (joinOne cR ⟨10, 0⟩ "#new" "") = some ":robustirc.net 403 bob #new :No such channel" := by decide +kernel
+
+/-- `C14_services_join_creates_only_below_limit`: `:ChanServ JOIN #new` below and at the limit -/
+example := C14_services_join_creates_only_below_limit (c := cC) (m := mSJoin) (chn := "#new") (eq_of_ctxOk (by decide +kernel))
+example := C14_services_join_creates_only_below_limit (c := cR) (m := mSJoin) (chn := "#new") (eq_of_ctxOk (by decide +kernel))
+example : counts (serverJoinOne cC mSJoin "#new") = some (3, 5, 1) ∧ counts (serverJoinOne cR mSJoin "#new") = some (2, 5, 1) ∧
+    lastText (serverJoinOne cR mSJoin "#new") = some ":robustirc.net 403 ChanServ #new :No such channel" := by decide +kernel
+
+/-- `C14_services_svsjoin_creates_only_below_limit`: `SVSJOIN bob #new` below and at the limit -/
+example := C14_services_svsjoin_creates_only_below_limit (c := cC) (sid := ⟨2, 0⟩) (m := mSvsjoin) (eq_of_ctxOk (by decide +kernel))
+example := C14_services_svsjoin_creates_only_below_limit (c := cR) (sid := ⟨2, 0⟩) (m := mSvsjoin) (eq_of_ctxOk (by decide +kernel))
+example : counts (cmdServerSvsjoin cC ⟨2, 0⟩ mSvsjoin) = some (3, 5, 5) ∧ counts (cmdServerSvsjoin cR ⟨2, 0⟩ mSvsjoin) = some (2, 5, 1) := by
+  decide +kernel
+
+/-- `C14_join_channel_limit`: `JOIN #x,#y` with 2 channels and limit 3: `#x` is created, `#y` is refused -/
+example := C14_join_channel_limit (c := cC) (sid := ⟨10, 0⟩) (m := mJoin2) (eq_of_ctxOk (by decide +kernel))
+example : counts (cmdJoin cC ⟨10, 0⟩ mJoin2) = some (3, 5, 8) ∧
+    lastText (cmdJoin cC ⟨10, 0⟩ mJoin2) = some ":robustirc.net 403 bob #y :No such channel" := by decide +kernel
+
+/-- `C14_handlers_do_not_create_channels`: alice's `PART #d` (the channel disappears) -/
+example := C14_handlers_do_not_create_channels (fname := "cmdPart") (h := cmdPart) rfl (by decide) (by decide) (by decide)
+  (c := cR) (sid := ⟨6, 0⟩) (m := ⟨none, "PART", ["#d"]⟩) (eq_of_ctxOk (by decide +kernel))
+example : counts (cmdPart cR ⟨6, 0⟩ ⟨none, "PART", ["#d"]⟩) = some (1, 5, 1) := by decide +kernel
+/-- `C14_all_handlers_channel_limit` on one of the three joining handlers -/
+example := C14_all_handlers_channel_limit (fname := "cmdServerSvsjoin") (h := cmdServerSvsjoin) rfl
+  (c := cC) (sid := ⟨2, 0⟩) (m := mSvsjoin) (eq_of_ctxOk (by decide +kernel))
+
+/-- `C14_limits_channels_entry`, `C14_limits_channels`: the committed `JOIN #new` of bob in `stC` (the number of channels
+grows, so the second disjunct / the last conjunct are the ones that apply), and the Config entry `eCfg3` in `stR` -/
+example := C14_limits_channels_entry (st := stC) (e := eJoin) ginvC (entryOk_of_B (by decide +kernel)) (eq_of_entryOk (by decide +kernel))
+example := C14_limits_channels (st := stC) (e := eJoin) ginvC (entryOk_of_B (by decide +kernel)) (eq_of_entryOk (by decide +kernel))
+example : stC.channels.length < (entrySt (applyEntry stC eJoin)).channels.length := by decide +kernel
+example := C14_limits_channels_entry (st := stR) (e := eCfg3) ginvR (entryOk_of_B (by decide +kernel)) applyC
+example := C14_limits_channels (st := stR) (e := eCfg3) ginvR (entryOk_of_B (by decide +kernel)) applyC
+
+/-- `C14_limits_channels_step`: `stR` is at the limit (2 of 2); a Config entry that raises the limit (the hypothesis
+`hcfg` is used: `3 ≥ 2`), and bob's `JOIN #new` at the limit in `stR` (refused) and below it in `stC` (created) -/
+example : ChannelsWithinLimit stC :=
+  C14_limits_channels_step (e := eCfg3) ginvR (entryOk_of_B (by decide +kernel)) (Or.inr (by decide))
+    (fun _ cfg hc => by cases hc; exact Or.inr (by decide)) applyC
+example : ChannelsWithinLimit (entrySt (applyEntry stR eJoin)) :=
+  C14_limits_channels_step (e := eJoin) ginvR (entryOk_of_B (by decide +kernel)) (Or.inr (by decide))
+    (fun h => absurd h (by decide)) (eq_of_entryOk (by decide +kernel))
+example : ChannelsWithinLimit (entrySt (applyEntry stC eJoin)) :=
+  C14_limits_channels_step (e := eJoin) ginvC (entryOk_of_B (by decide +kernel)) (Or.inr (by decide))
+    (fun h => absurd h (by decide)) (eq_of_entryOk (by decide +kernel))
+example : (entrySt (applyEntry stR eJoin)).channels.length = 2 ∧ (entrySt (applyEntry stC eJoin)).channels.length = 3 := by
+  decide +kernel
+
+/-- `C14_limits_channels_history` on the 26 entries of `es0 ++ es2` -/
+example : ChannelsWithinLimit stEnd := C14_limits_channels_history wf02 lim02 run02
+example : (runOk stR es2).map (fun st => (AMap.keys st.channels, st.sessions.length, st.config.maxChannels, st.config.maxSessions)) =
+    some (["#c", "#d", "#new"], 6, 3, 6) := by decide +kernel
+
+/-- `C14_limits_sessions_entry`: a CreateSession entry with 5 sessions and limit 6 (created), and the next one (refused:
+the state is unchanged) -/
+example := C14_limits_sessions_entry (st := stR) (e := eCreate) rfl (eq_of_entryOk (by decide +kernel))
+example := C14_limits_sessions_entry (st := entrySt (applyEntry stR eCreate)) (e := eCreate2) rfl (eq_of_entryOk (by decide +kernel))
+example : (entrySt (applyEntry stR eCreate)).sessions.length = 6 ∧
+    entrySt (applyEntry (entrySt (applyEntry stR eCreate)) eCreate2) = entrySt (applyEntry stR eCreate) := by decide +kernel
+
+/-- `C14_limits_sessions_services_nick`: the services link introduces `NickServ` (5 sessions, limit 6) -/
+example := C14_limits_sessions_services_nick (c := cR) (sid := ⟨2, 0⟩) (m := mSNick) (eq_of_ctxOk (by decide +kernel))
+example : counts (cmdServerNick cR ⟨2, 0⟩ mSNick) = some (2, 6, 0) := by decide +kernel
+
+/-- `C14_handlers_do_not_create_sessions`: bob's `QUIT`; the hypothesis on the session map from the invariant of `stR` -/
+example := C14_handlers_do_not_create_sessions (fname := "cmdQuit") (h := cmdQuit) rfl (by decide)
+  (c := cR) (sid := ⟨10, 0⟩) (m := ⟨none, "QUIT", ["bye"]⟩)
+  ⟨fun id s hs => (ginvR.inv.sessId id s hs).1, ginvR.inv.sessNodup⟩ (eq_of_ctxOk (by decide +kernel))
+
+/-- `C14_limits_sessions_any_entry`: the committed services `NICK` (the number of sessions grows) and a Config entry -/
+example := C14_limits_sessions_any_entry (st := stR) (e := eSNick) ginvR (entryOk_of_B (by decide +kernel)) (eq_of_entryOk (by decide +kernel))
+example : (entrySt (applyEntry stR eSNick)).sessions.length = 6 := by decide +kernel
+example := C14_limits_sessions_any_entry (st := stR) (e := eCfg3) ginvR (entryOk_of_B (by decide +kernel)) applyC
+
+/-- `C14_limits_sessions_step`: 5 sessions, limit 6; the Config entry (`hcfg` is used: `6 ≥ 5`) and a CreateSession entry -/
+example : SessionsWithinLimit stC :=
+  C14_limits_sessions_step (e := eCfg3) ginvR (entryOk_of_B (by decide +kernel)) (Or.inr (by decide))
+    (fun _ cfg hc => by cases hc; exact Or.inr (by decide)) applyC
+example : SessionsWithinLimit (entrySt (applyEntry stR eCreate)) :=
+  C14_limits_sessions_step (e := eCreate) ginvR (entryOk_of_B (by decide +kernel)) (Or.inr (by decide))
+    (fun h => absurd h (by decide)) (eq_of_entryOk (by decide +kernel))
+
+/-- `C14_limits_sessions_history` on `es0 ++ es2` -/
+example : SessionsWithinLimit stEnd := C14_limits_sessions_history wf02 slim02 run02
 end Robust.Props.C14
